@@ -267,6 +267,11 @@ class Interp:
 
     def call(self, e: ast.Call) -> Any:
         f = e.func
+        if isinstance(f, ast.Call):  # `type(xs)(…)`: rebuilding a container of the same builtin type
+            fv = self.ev(f)
+            if fv in (tuple, list, set, frozenset, dict):
+                return fv(*[self.ev(a) for a in e.args])
+            raise Unsupported(f"call of a computed callable {ast.unparse(f)[:40]}")
         if isinstance(f, ast.Name) and f.id in ("all", "any") and len(e.args) == 1 and isinstance(e.args[0], ast.GeneratorExp):
             g = e.args[0]
             if len(g.generators) != 1 or not isinstance(g.generators[0].target, ast.Name):
@@ -368,6 +373,9 @@ class Interp:
                         return
                 if isinstance(v.func, ast.Attribute) and v.func.attr in _PURE_METHODS:
                     self.call(v)  # e.g. `xs.append(y)` on a concrete list of the case
+                    return
+                if isinstance(v.func, ast.Name) and callable(self.env.get(v.func.id)):
+                    self.call(v)  # a closure of the interpreted function / a callable handed in by the case
                     return
                 if isinstance(v.func, ast.Attribute) and isinstance(v.func.value, ast.Name) and v.func.value.id == "heapq" and "heapq" not in self.env:
                     self.call(v)  # heap operations on a concrete list of the case
